@@ -1,7 +1,7 @@
 """Engine B kernels for the almanac cycles (C17)."""
 import os
 from . import mir as M
-from .mir import T, I, Rec, Unsupported
+from .mir import T, I, Rec, Opaque, Unsupported
 from .kernels import run_kernel, struct_fields, REPO
 from .objmodel import Obj
 from .pillars import _ctx, _finish
@@ -284,4 +284,96 @@ def k_hour_nine_star(eng, route):
         return ctx, paths, pre, posts, lambda p: _kind(p, "NineStar")
 
     r = run_kernel(eng, "17.f/B/hour-nine-star/%s" % route, "17.f", "every day relative to the two solstice days, all 60 day pillars x 24 hours", build, None, None)
+    return _finish(r, holder["ctx"]) if "ctx" in holder else r
+
+
+def k_hidden_stem_list(eng):
+    """EarthBranch::get_hide_heaven_stems: the main stem, then the middle and the residual stem where they exist, each tagged with its kind"""
+    holder = {}
+    MAIN = [9, 5, 0, 1, 4, 2, 3, 5, 6, 7, 4, 8]
+    MID = [-1, 9, 2, -1, 1, 6, 5, 3, 8, -1, 7, 0]
+    RES = [-1, 7, 4, -1, 9, 4, -1, 1, 4, -1, 3, -1]
+
+    class VecV:
+        def __init__(self, items):
+            self.items = items
+
+    def table(tbl, b):
+        acc = str(tbl[-1]) if tbl[-1] >= 0 else "(- 1)"
+        for k in range(len(tbl) - 2, -1, -1):
+            acc = "(ite (= %s %d) %s %s)" % (b, k, str(tbl[k]) if tbl[k] >= 0 else "(- 1)", acc)
+        return acc
+
+    def build(eng):
+        fn = M.find_fn(eng.fns, "get_hide_heaven_stems", "&EarthBranch")
+        ctx = _ctx(eng, {"EarthBranch::get_hide_heaven_stem_main": ("get_hide_heaven_stem_main", "&EarthBranch", None),
+                         "EarthBranch::get_hide_heaven_stem_middle": ("get_hide_heaven_stem_middle", "&EarthBranch", None),
+                         "EarthBranch::get_hide_heaven_stem_residual": ("get_hide_heaven_stem_residual", "&EarthBranch", None)})
+        b = ctx.fresh_value("branch", "usize")
+        me = Obj("EarthBranch", b)
+        holder.update(ctx=ctx)
+        model = ctx.model
+        base = model.call
+
+        def call(c, fr, callee, args, path):
+            if callee.startswith("Vec::<") and callee.endswith("::new"):
+                return True, VecV([])
+            if callee.startswith("Vec::<") and callee.endswith("::push"):
+                ref = args[0]
+                x = model.deref(c, args[1])
+                if isinstance(ref, M.Ref) and not ref.proj:
+                    cur = ref.frame["vals"].get(ref.local)
+                    if isinstance(cur, VecV):
+                        ref.frame["vals"][ref.local] = VecV(cur.items + [x])
+                        fr["vals"][ref.local] = ref.frame["vals"][ref.local]
+                        return True, Opaque("unit")
+                raise Unsupported("Vec::push on something that is not a modelled local vector")
+            if callee == "HideHeavenStem::new":
+                a = [model.deref(c, x) for x in args]
+                r = Rec(c, "hidden")
+                r.stem, r.kind = a[0], a[1]
+                return True, r
+            return base(c, fr, callee, args, path)
+        model.call = call
+        paths = ctx.run(fn, [me])
+        pre = ["(<= 0 %s 11)" % b.s]
+
+        def shape(p):
+            if not isinstance(p.ret, VecV):
+                return "result is not the vector that was filled"
+            for it in p.ret.items:
+                if not (hasattr(it, "stem") and isinstance(it.stem, Obj) and it.stem.kind == "HeavenStem" and isinstance(it.kind, Rec)):
+                    return "an element is not HideHeavenStem::new(stem, kind)"
+            return None
+
+        def posts(p):
+            items = p.ret.items
+            mid, res = table(MID, b.s), table(RES, b.s)
+            n_exp = "(+ 1 (ite (>= %s 0) 1 0) (ite (>= %s 0) 1 0))" % (mid, res)
+            out = [("length", "(= %d %s)" % (len(items), n_exp))]
+            kinds = [it.kind.name.split(":")[-1] for it in items]
+            stems = [it.stem.idx.s for it in items]
+            if not items or kinds[0] != "MAIN":
+                return out + [("first-is-main", "false")]
+            out.append(("main", "(= %s %s)" % (stems[0], table(MAIN, b.s))))
+            k = 1
+            # with a middle stem present it comes second; the residual (if any) last
+            if len(items) >= 2:
+                out.append(("second", "(ite (>= %s 0) (and %s (= %s %s)) (and %s (= %s %s)))" % (
+                    mid, "true" if kinds[1] == "MIDDLE" else "false", stems[1], mid, "true" if kinds[1] == "RESIDUAL" else "false", stems[1], res)))
+            if len(items) >= 3:
+                out.append(("third", "(and %s (= %s %s))" % ("true" if kinds[2] == "RESIDUAL" else "false", stems[2], res)))
+            return out
+        return ctx, paths, pre, posts, shape
+
+    def replay(eng, model):
+        try:
+            b = int(model["|branch|"])
+        except Exception as e:
+            return False, "model incomplete %r" % e
+        nat = eng.native("hidden_stems", b)
+        exp = [str(MAIN[b])] + ([str(MID[b])] if MID[b] >= 0 else []) + ([str(RES[b])] if RES[b] >= 0 else [])
+        return (nat.split() != exp), "hidden stems of branch %d: %s, expected %s" % (b, nat, " ".join(exp))
+
+    r = run_kernel(eng, "19.f/B/hidden-stem-list", "19.f", "all 12 branches", build, None, replay)
     return _finish(r, holder["ctx"]) if "ctx" in holder else r
